@@ -59,6 +59,10 @@ def handle : Handler := fun op args =>
   -- point-wise harmonics: Boost and the summation are not modelled; the comparison side uses the
   -- model's coefficient tables (c17.vshy / c17.vshpsi) and an independent reference
   -- dense scans of the accuracy clauses: decided on the comparison side against the reference only
+  -- class D (self-differential, justified by `history_independent` / `premain_independent`): the implementation is
+  -- compared with itself (before main() vs from main(); results held simultaneously vs copied)
+  | "c17.premain" => withArgs (pure ()) args fun _ => "ok -"
+  | "c17.vshhold" => withArgs (do let k ← tok; let r ← pMany (do let l ← pInt; let m ← pInt; let t ← pRat; let p ← pRat; pure (l, m, t, p)) 3; pure (k, r)) args fun _ => "ok -"
   | "c17.inverfscan" => withArgs (do let sg ← pInt; let a ← pRat; let b ← pRat; let st ← pRat; let o ← pRat; pure (sg, a, b, st, o)) args fun _ => "ok -"
   | "c17.dawscan" => withArgs (do let sg ← pInt; let a ← pRat; let b ← pRat; let n ← pNat; let o ← pRat; pure (sg, a, b, n, o)) args fun _ => "ok -"
   | "c17.sph" => withArgs (do let l ← pInt; let m ← pInt; let t ← pRat; let p ← pRat; pure (l, m, t, p)) args fun _ => "ok -"
